@@ -10,7 +10,7 @@ import heapq
 from math import inf
 
 from onl.sim.core import Environment, EmptySchedule
-from onl.sim.events import (Condition, Event, Initialize, Interruption, Process, Timeout)
+from onl.sim.events import (Condition, ConditionValue, Event, Initialize, Interruption, Process, Timeout)
 from onl.sim.exceptions import Interrupt
 from onl.sim.rt import RealtimeEnvironment
 import onl.sim.rt as rt_mod
@@ -38,7 +38,14 @@ def mkexc(spec):
 
 
 def exc_out(e):
+    if not isinstance(e, BaseException):
+        return ("exc", "<not an exception>", repr(e))
     return ("exc", type(e).__name__, list(e.args) if _plain(e.args) else repr(e.args))
+
+
+def ev_outcome(ev):
+    """public outcome of a triggered event"""
+    return ("ok", ev.value) if ev.ok else exc_out(ev.value)
 
 
 def _plain(x):
@@ -635,7 +642,7 @@ class Interp:
                 self.log(pid, pc, "trigger", (hev.name, outcome))
         # whatever happened, the event keeps its first outcome
         if hev.expect is not None:
-            got = ("ok", ev.value) if ev.ok else exc_out(ev.value)
+            got = ev_outcome(ev)
             if got != hev.expect:
                 h.flag("C02.trigger_once", f"{hev.name} outcome changed to {got}, first was {hev.expect}",
                        "C02.trigger_once/changed")
@@ -656,7 +663,7 @@ class Interp:
             hev.delivered.append(reg)
             if h.cur_occ is None or h.cur_occ.event is not ev:
                 h.flag("C02.callback_step", f"callback on {hev.name} invoked outside its processing step", "C02.callback_step")
-            got = ("ok", ev._value) if ev._ok else exc_out(ev._value)
+            got = ev_outcome(ev)
             if got != hev.expect:
                 h.flag("C02.value", f"callback on {hev.name} saw {got}, expected {hev.expect}", "C02.value/cb")
             if reg[2] and not ev._ok:
@@ -851,6 +858,9 @@ class Interp:
         if outcome != hev.expect:
             h.flag("C02.value", f"P{pid} at pc {pc} received {outcome} from {hev.name}, expected {hev.expect}",
                    "C02.value/" + ("exc" if outcome[0] == "exc" or (hev.expect or ("",))[0] == "exc" else "ok"))
+        if outcome[0] == "ok" and isinstance(outcome[1], ConditionValue):
+            names = [(h.hevs[id(e)].name if id(e) in h.hevs else "?") for e in outcome[1].keys()]
+            outcome = ("ok", ["<ConditionValue>", names])
         self.log(pid, pc, "resume", (hev.name, outcome))
 
     # ---------------------------------------------------------------- conditions
@@ -1023,12 +1033,18 @@ def end_checks(interp, exhausted):
                                       f"{'still running' if P.alive else 'has ended'}", "C02.termination")
         if not P.alive:
             pv = P.process
-            got = ("ok", pv.value) if pv.ok else exc_out(pv.value)
+            got = ev_outcome(pv)
             if got != P.hev.expect:
                 h.flag("C02.termination", f"P{P.pid} value {got}, body ended with {P.hev.expect}", "C02.termination/value")
         if P.alive and exhausted and P.waiting is not None and P.waiting.processed_step is not None:
             h.flag("C02.lost_waiter", f"P{P.pid} still waits on {P.waiting.name}, processed at step "
                                       f"{P.waiting.processed_step}", "C02.lost_waiter")
+        if P.alive and exhausted and P.waiting is not None and P.waiting.kind == "C" and P.waiting.tree is not None \
+                and P.waiting.processed_step is None:
+            dec = eval_cond(P.waiting)
+            if dec is not None and not detached(P.waiting, dec[0]):
+                h.flag("C05.late", f"P{P.pid} still waits on {P.waiting.name} although its predicate was decided at t={dec[1]}",
+                       "C05.late/waiter")
         if P.alive and P.intr_fifo and exhausted:
             left = [o for o in P.intr_fifo if o.proc_step is not None]
             if left:
@@ -1123,7 +1139,7 @@ def trace_of(res):
     for P in res.interp.procs:
         pv = P.process
         if pv.triggered:
-            final.append((P.pid, ("ok", pv.value) if pv.ok else exc_out(pv.value)))
+            final.append((P.pid, ev_outcome(pv)))
         else:
             final.append((P.pid, "alive"))
     return out, final
